@@ -18,6 +18,7 @@ Bad(fn, a, s) == [fn |-> fn, a |-> a, s |-> s, good |-> FALSE]
 Sig1 == [NoArgs EXCEPT !.sub = "dh", !.ext = 1]
 Sig0 == [NoArgs EXCEPT !.sub = "ecdh", !.ext = 0]
 
+BadSidCh == <<1, 0, 0, 75, 3, 3>> \o Fill(5, 32) \o <<33>> \o Fill(6, 33) \o <<0, 2, 0, 47, 1, 0>>
 Pool == <<
   Ok_("parse_tls_plaintext", NoArgs, EncRecordRaw(22, 771, <<14, 0, 0, 0>> \o CH)),
   Ok_("parse_tls_plaintext", NoArgs, EncRecordRaw(21, 771, <<1, 0>>)),
@@ -26,6 +27,9 @@ Pool == <<
   Ok_("parse_tls_raw_record", NoArgs, EncRecordRaw(22, 771, <<1, 2, 3>>)),
   Ok_("parse_tls_encrypted", NoArgs, EncRecordRaw(23, 771, <<>>)),
   Ok_("tls_parser", NoArgs, EncRecordRaw(20, 771, <<1>>)),
+  Ok_("tls_parser", NoArgs, EncRecordRaw(20, 771, <<1, 0>>)), Ok_("tls_parser", NoArgs, EncRecordRaw(21, 771, <<1, 0, 2>>)),      \* bytes after the last message, inside the record
+  Ok_("tls_parser", NoArgs, EncRecordRaw(22, 771, <<14, 0, 0, 0, 11, 0>>)), Ok_("parse_tls_plaintext", NoArgs, EncRecordRaw(22, 771, <<14, 0, 0, 0, 11, 0>>)),
+  Ok_("parse_tls_plaintext", NoArgs, EncRecordRaw(22, 771, <<0, 0, 0, 0>> \o BadSidCh)),                                           \* a hard-rejected message after a valid one
   Ok_("parse_dtls_plaintext_record", NoArgs, EncDtlsRecord(22, 65277, 1, <<0, 0, 5>>, EncDtlsHs(14, 0, 3, 0, 0, <<>>))),
   Ok_("parse_dtls_plaintext_record", NoArgs, EncDtlsRecord(22, 65277, 1, <<0, 0, 5>>, EncDtlsHs(11, 30, 3, 4, 2, <<7, 7>>))),
   Ok_("parse_dtls_message_handshake", NoArgs, EncDtlsHs(16, 2, 1, 0, 2, <<8, 9>>)),
@@ -99,8 +103,13 @@ Pool == <<
   >>
 Sfx(s) == << <<>>, <<0>>, s, <<22, 3, 3, 255, 255>>, <<255, 255, 255, 255, 255, 255, 255, 255, 255>> >>
           \o [n \in 1..12 |-> [j \in 1..n |-> (7 * j) % 256]]      \* every suffix length 1..12
-NSfx == 17 + Len(LongTails)
-SfxParts(s, k) == IF k <= 17 THEN <<Lit(Sfx(s)[k])>> ELSE <<RepPart(171, LongTails[k - 17])>>
+(* what follows may also be a structure that a parser REJECTS HARD (a well-framed record holding a ClientHello with a 33-byte session id): *)
+(* the verdict on what precedes it does not change                                                                                  *)
+NSfx == 19 + Len(LongTails)
+SfxParts(s, k) == IF k <= 17 THEN <<Lit(Sfx(s)[k])>>
+                  ELSE IF k = 18 THEN <<Lit(EncRecordRaw(22, 771, BadSidCh))>>
+                  ELSE IF k = 19 THEN <<Lit(BadSidCh)>>
+                  ELSE <<RepPart(171, LongTails[k - 19])>>
 
 N == Len(Pool) * NSfx
 PoolOf(j) == Pool[((j - 1) \div NSfx) + 1]
